@@ -1288,7 +1288,7 @@ func (x *Exec) assumeWF(g *Term, v *Term, t types.Type, st *State) {
 			c.Implies(c.Eq(c.SlPtr(v), c.Null()), c.Eq(c.SlCap(v), c.BV(0, 64)))))
 	case SRef:
 		x.assume(g, c.IntCmp("<", c.RRoot(v), bound))
-		x.ptrTag(v, t)
+		x.ptrTag(g, v, t)
 	case SStr:
 		x.assume(g, c.BVCmp("bvule", c.StrLen(v), c.BV(1<<56, 64)))
 	case "Addr":
@@ -1317,7 +1317,7 @@ func (x *Exec) assumeWF(g *Term, v *Term, t types.Type, st *State) {
 // Generic named types are tagged by their origin (type arguments ignored); pointee types that mention a type
 // parameter are not tagged. Not valid across unsafe casts that reinterpret memory at the same path (none of the
 // functions under contract does that: casts through unsafe.Pointer are followed by field addressing, which has its own path).
-func (x *Exec) ptrTag(v *Term, t types.Type) {
+func (x *Exec) ptrTag(g, v *Term, t types.Type) {
 	if t == nil || v.open {
 		return
 	}
@@ -1325,7 +1325,7 @@ func (x *Exec) ptrTag(v *Term, t types.Type) {
 	if !ok {
 		return
 	}
-	x.ptrTagElem(v, p.Elem())
+	x.ptrTagElem(g, v, p.Elem())
 }
 
 func mentionsTypeParam(t types.Type, depth int) bool {
@@ -1360,7 +1360,8 @@ func mentionsTypeParam(t types.Type, depth int) bool {
 	return true
 }
 
-func (x *Exec) ptrTagElem(v *Term, elem types.Type) {
+// (guarded by the path condition: allocations on different paths can carry the same allocation number)
+func (x *Exec) ptrTagElem(g, v *Term, elem types.Type) {
 	if v.open {
 		return
 	}
@@ -1368,6 +1369,7 @@ func (x *Exec) ptrTagElem(v *Term, elem types.Type) {
 	if f == nil {
 		return
 	}
+	f = x.c.Implies(g, f)
 	if x.ptrTagDone == nil {
 		x.ptrTagDone = map[*Term]bool{}
 	}
